@@ -27,9 +27,9 @@ def configs(tier, seed):
         for b in ("fs", "fs+m", "fsc4", "fsc4+m"):
             cfgs.append(("c07", b, KEYS, ("s", "D", "P", "N", "E"), False, 3, seed))
         for b in ("fs", "fsc4"):
-            cfgs.append(("c07", b, [KEYS[0], KEYS[2]], ("s", "D", "P"), False, 5, seed))
+            cfgs.append(("c07", b, [KEYS[0], KEYS[2]], ("s", "D", "P"), False, 4, seed))
             cfgs.append(("c07", b, [KEYS[0], KEYS[2]], ("G", "D"), False, 4, seed))
-            cfgs.append(("c07p", b, [KEYS[0], KEYS[2]], ("P",), False, 6, seed))
+            cfgs.append(("c07p", b, [KEYS[0], KEYS[2]], ("P",), False, 5, seed))
     return cfgs
 
 
@@ -55,7 +55,7 @@ def run(ctx):
     if ctx.tier == "thorough":
         cs.append(("fs+cache-one|cold|shared-override+readback", "fs+cache-one", "cold", [[("ko", 1)], [("ko", 2)]]))
     c09.concurrent_part(ctx, cs, "readback", "two threads writing results under one key override / byte-identical results at the same time, "
-                        "then every call read back through a fresh backend", bound=2 if ctx.tier == "thorough" else 1)
+                        "then every call read back through a fresh backend", bound=1, deep=(2, "runner", "calls") if ctx.tier == "thorough" else None)
     ctx.extra["serialized_sizes_swept"] = SIZES
 
 
